@@ -97,7 +97,11 @@ def r2(ctx):
     ctx.require(pk is not None, "anchor vanished: _FeatureIterator has no peek")
     ctx.touch(pk)
     n_param = [p for p in pk.params if p != "self"][0]
-    for label, mk in (("a one-shot generator", lambda xs: StreamVal(xs, "data")), ("a list", lambda xs: list(xs))):
+    def plain_iterator(xs):
+        s_ = StreamVal(xs, "data")
+        s_.is_generator = False          # iter(list), map(...), an open file: one-shot, but not a generator object
+        return s_
+    for label, mk in (("a one-shot generator", lambda xs: StreamVal(xs, "data")), ("a one-shot iterator that is not a generator", plain_iterator), ("a list", lambda xs: list(xs))):
         for n in (0, 2, 10):
             xs = [Opaque("x%d" % i, "Feature") for i in range(5)]
             so = Opaque("self", "_FeatureIterator")
